@@ -17,6 +17,9 @@ WSPARSE, SLOTS = 24, 32   # (WSPARSE, n, {slot: id}): a .PASSWDS of n records, t
 PREALLOC = 1000           # cache.PRE_ALLOCATED_USERS (compared with the compiled constant of both builds in main)
 BY2 = 29   # (BY2, mode, op): op is executed by a second process attached to the existing segment (mode 1: NewSHM with the create flag); its Shm.IsNew is false
 BY2_OPS = (ADD, REMOVE, SET, SEARCH, DOSEARCH, GETID, LOAD)
+RELINK = 33   # (RELINK, mode): BBSHOME/.PASSWDS becomes 0 a regular file, 1 a symbolic link with an absolute target in another directory, 2 one with a relative target, 3 a link to a link; same records
+PEER = 34     # (PEER, k, op): op is executed by the LONG-LIVED attached process k (0..2): it attaches once and keeps its process-private state until the history ends
+LINKS = {0: "a regular file", 1: "a symbolic link (absolute target in another directory)", 2: "a symbolic link (relative target)", 3: "a symbolic link to a symbolic link to the table"}
 
 
 def pad(b):
@@ -102,8 +105,10 @@ def toks(b):
 
 def op_line(o):
     k = o[0]
-    if k == BY2:
+    if k in (BY2, PEER):
         return "%d %d %s" % (k, o[1], op_line(o[2]))
+    if k == RELINK:
+        return "%d %d" % (k, o[1])
     if k in (ADD, SET):
         return "%d %d %s" % (k, o[1], toks(pad(o[2])))
     if k in (REMOVE, GETID):
@@ -140,6 +145,7 @@ class Ref:
         self.battery, self.buckets = [], []
         self.watching = False     # no (BUCKETS, ..) yet: the driver prints no chain (the docker scenarios set their buckets after the first load)
         self._hm = None
+        self.mode = 0             # how .PASSWDS reaches the table (RELINK); the records are the same whichever way
 
     def holders(self, q):
         """uids of the indexed slots whose WHOLE id equals q up to letter case (never a prefix, never an extension)"""
@@ -153,8 +159,11 @@ class Ref:
         """-> expected (status, code) or None when the property does not fix it"""
         k = o[0]
         self._hm = None
-        if k == BY2:                          # the same memory: who executes the operation must not matter
+        if k in (BY2, PEER):                  # the same memory: who executes the operation must not matter, nor how long that process has been attached
             return self.apply(o[2])
+        if k == RELINK:                       # the same records behind another kind of directory entry
+            self.mode = o[1]
+            return (0, 0)
         if k == ADD:
             slot = o[1]
             if not 0 <= slot < self.maxu:
@@ -236,7 +245,7 @@ def parse(line, ops, maxu):
             break
         st, code = t[i], t[i + 1]; i += 2
         extra = None
-        if o[0] == BY2:
+        if o[0] in (BY2, PEER):
             o = o[2]
         if o[0] in (SEARCH, DOSEARCH, GETID):
             extra = bytes(t[i:i + IDSZ]); i += IDSZ
@@ -283,9 +292,16 @@ def judge(ops, line, maxu, hdr):
         if o[0] == BY2:
             who = " executed by a second process (attached to the existing segment with NewSHM(isCreate=%s), IsNew=false)" % ("true" if o[1] else "false")
             o = o[2]
+        elif o[0] == PEER:
+            who = " executed by the long-lived attached process %d (attached once with NewSHM(isCreate=false), alive since its first operation in this history)" % o[1]
+            o = o[2]
         name = {ADD: "AddToUHash", REMOVE: "RemoveFromUHash", SET: "SetUserID", SEARCH: "SearchUserRaw", DOSEARCH: "DoSearchUserRaw", GETID: "GetUserID", LOAD: "LoadUHash",
                 ATTACH: "attach by a second process", ATTACH_HDR: "attach with header"}.get(o[0], "op %d" % o[0])
         desc = "%s%s%s" % (name, tuple(showid(x) if isinstance(x, (bytes, bytearray)) else x for x in o[1:]) if o[0] not in (WRITE, WSPARSE, SLOTS, BATTERY, BUCKETS) else "", who)
+        if o[0] == LOAD and r.mode:
+            desc += " with BBSHOME/.PASSWDS being %s, %d records" % (LINKS[r.mode], len(r.file))
+        if o[0] == RELINK:
+            desc = "making BBSHOME/.PASSWDS %s (same records)" % LINKS.get(o[1], o[1])
         if st == 2 and o[0] == LOAD:
             desc += " on a segment with " + pre
         if st in (1, 2) and exp is not None:
@@ -454,6 +470,28 @@ def main():
     if len(one_more) < 1 or len(longer) < 1 or not with_empty:
         c.broken.append({"kind": "harness", "where": "checks/C04.py prefix pairs", "theorem": "the id pool contains colliding prefix pairs", "log": "%r %r %r" % (one_more, longer, with_empty)})
     pool = [i for f in fams for i in f[:5]] + with_empty + plain + [i for i in prefix_ids if i not in with_empty]
+
+    def big_family(n):
+        """n ids colliding in one bucket (a chain longer than any the random pool gives): directed search over three-character suffixes"""
+        first = rand_id(5, 6)
+        tgt, out, seenb, btries = pyhash(first, bits), [first], {first.lower()} | {x.lower() for x in pool}, 0
+        while len(out) < n and btries < 600:
+            btries += 1
+            base = rand_id(2, 4)
+            s0 = fnv_state(base)
+            for a in FOLDED:
+                s1 = ((s0 ^ a) * FNV_PRIME) & 0xffffffff
+                for b in FOLDED:
+                    s2 = ((s1 ^ b) * FNV_PRIME) & 0xffffffff
+                    for ch in FOLDED:
+                        if ((s2 ^ ch) * FNV_PRIME) & mask == tgt:
+                            i = base + recase(bytes([a, b, ch]))
+                            if i.lower() not in seenb and i.lower() not in seen_fold and pyhash(i, bits) == tgt:
+                                seenb.add(i.lower()); out.append(i)
+        return out
+    bigfam = big_family(26)
+    if len(bigfam) < 22:
+        c.broken.append({"kind": "harness", "where": "checks/C04.py big_family", "theorem": "a family of at least 22 ids colliding in the 16-bit hash", "log": "%r" % bigfam})
     full = []                                                # 50 pairwise distinct ids for full tables: whole families first
     for f in sorted(by_bucket.values(), key=lambda v: (-len(v), v)):
         for i in f:
@@ -477,7 +515,7 @@ def main():
     for i in prefix_ids:                                       # near misses of the prefix-related ids: one character less, one more, a different last one
         queries += [i[:-1], i[:-1].upper(), (i + b"x")[:IDLEN_MAX], (i + b"0")[:IDLEN_MAX].upper(), i[:-1] + b"_", i[:1]]
     battery = sorted(set(pad(q) for q in queries))
-    buckets = sorted({pyhash(i, bits) for i in pool + full + spare + [b"", junk, b"bob", b"amy"] + [cpre(q) for q in battery]})
+    buckets = sorted({pyhash(i, bits) for i in pool + full + spare + bigfam[:1] + [b"", junk, b"bob", b"amy"] + [cpre(q) for q in battery]})
 
     # the check's transcription of the hash against the implementation (and the model)
     hl = [pad(i) for i in pool + full] + battery + [bytes(rng.randrange(256) for _ in range(IDSZ)) for _ in range(1500)] + [bytes([rng.randrange(1, 256)] * 13)]
@@ -519,7 +557,7 @@ def main():
         """p2: share of the operations that a second, attached process executes instead of the creator; pd: share of the ids (arguments of set / add, .PASSWDS records,
         queries) that arrive in a buffer with leftovers of a longer id behind the terminator"""
         r = Ref(maxu); r.hdr = hdr
-        by = lambda o: second(o) if o[0] in BY2_OPS and rng.random() < p2 else o
+        by = lambda o: (second(o) if rng.random() < 0.6 else (PEER, rng.randrange(3), o)) if o[0] in BY2_OPS and rng.random() < p2 else o
         if style == "full":
             file_ids = list(full)
         elif style == "short":
@@ -589,6 +627,10 @@ def main():
                 o = (ATTACH,)
             elif x < 0.97:
                 o = (ATTACH_HDR, rng.choice([shmver, shmver + 1, 0]), rng.choice([shmsz, shmsz, shmsz - 4]))
+            elif x < 0.985:
+                o = (RELINK, rng.randrange(4))
+            elif style != "full":
+                o = (SET, slot + 1, b"")                                                         # release the slot: it joins the free slots (the empty id's chain)
             else:
                 continue
             o = by(o)
@@ -655,6 +697,121 @@ def main():
             ops += [(UNLOAD,), (WRITE, other), second((LOAD,), 0)] + lookq() + [(DOSEARCH, b""), (DOSEARCH, over(LEFT[0], b""))]
             cases.append(narrow(ops, g + [b"guest"], dirty=True))
     n_left = len(cases) - n_before_left
+    # ---- the table behind symbolic links: every shape of the directory entry x who loads x file shape; cold load, lookups, registration, reload from the agreeing
+    # table by another process, back to a regular file, cold load of another table through a fresh link
+    n_before_link = len(cases)
+    peer = lambda k: (lambda o: (PEER, k, o))
+    loaders = [lambda o: o, lambda o: second(o, 0), peer(0)]
+    famf = fams[0][:4] if fams else [b"Bob2", b"a1"]
+    link_files = [[b"SYSOP", b"", famf[0], b"alice", famf[1]], list(full), ([b"guest", b"alice"] + famf + with_empty + [b""] * maxu)[:maxu], [b"guest"], []]
+    for mode in (1, 2, 3):
+        for li_, f in enumerate(link_files):
+            if not thorough and li_ not in (mode - 1, mode + 1, (mode + 3) % 5):     # quick tier: three of the five file shapes per link shape (every file shape is used)
+                continue
+            act, other = loaders[(mode + li_) % 3], loaders[(mode + li_ + 1) % 3]
+            ops = [(BUCKETS, buckets), (BATTERY, battery), (RELINK, mode), (WRITE, f), act((LOAD,))]
+            ops += [(SEARCH, (f[-1] or b"nobody").swapcase())] if f else []
+            ops += [other((SET, 7, b"Bob2")), (REMOVE, 0), act((ADD, 0, b"twelvechars1")), (ATTACH,)]
+            ops += [agreeing(ops), other((LOAD,)), (RELINK, 0), act((LOAD,)), (RELINK, (mode % 3) + 1), other((LOAD,))]
+            ops += [(UNLOAD,), (WRITE, (list(reversed(f)) + [b"Zz"])[:maxu]), act((LOAD,)), (ATTACH,)]
+            cases.append(narrow(ops, [i for i in f[:3] + f[-3:] + [b"Bob2", b"twelvechars1", b"Zz", b"guest"] if i]))
+    n_link = len(cases) - n_before_link
+    # ---- long chains handed from process to process. Several LONG-LIVED processes (the creator, the attached processes 0 and 1 of op 34) and a fresh one (op 29)
+    # take turns on one long chain: the free slots' chain (the empty id; releasing a slot appends to it, registering takes a slot off it) and a chain of 17+ ids
+    # colliding in the 16-bit hash. X appends to the chain, Y takes the chain's LAST slot off (registration / rename to another bucket / release / remove + add),
+    # X appends again: whatever a process remembers about a chain (its end, its head, its length) has been changed by somebody else in between.
+    n_before_hand = len(cases)
+    hand_actors = [("the creator", lambda o: o), ("attached process 0", peer(0)), ("attached process 1", peer(1)), ("a fresh second process", lambda o: second(o, 0))]
+    nfam = 17
+    HF, HE = pyhash(bigfam[0], bits), empty_bucket
+    away = [b"alice", b"Bob2", b"a1", b"Zz", b"guest", b"SYSOP"]
+    for xi, (xn, X) in enumerate(hand_actors[:3]):
+        for yi, (yn, Y) in enumerate(hand_actors):
+            if xi == yi:
+                continue
+            for kind in range(4):
+                if kind >= 2 and not thorough and (xi + yi) % 3 != kind - 2:      # quick tier: every pair of processes on kinds 0 and 1, a rotating third on 2 and 3
+                    continue
+                # slots 0..16 hold the family (chain order 0..16), 17..49 are free (chain order 17..49)
+                ops = start(bigfam[:nfam] + [b""] * (maxu - nfam), hand_actors[(xi + yi + kind) % 3][1]((LOAD,)))
+                if kind == 0:      # free chain: X releases two family slots (appends 3, then 5 to the free chain), Y registers on the last one, X releases again
+                    ops += [X((SET, 4, b"")), X((SET, 6, b"")), Y((SET, 6, away[0])), X((SET, 9, b"")), (SEARCH, bigfam[8]), Y((SET, 4, away[1])), X((SET, 11, b"")), X((SET, 12, b""))]
+                elif kind == 1:    # family chain: X registers two colliding ids on free slots (chain grows past 17), Y renames the last one away, X registers another
+                    ops += [X((SET, 20, bigfam[17])), X((SET, 21, bigfam[18])), Y((SET, 21, away[0])), X((SET, 22, bigfam[19])), (SEARCH, bigfam[19].swapcase()),
+                            Y((SET, 22, b"")), X((SET, 23, bigfam[20])), (SEARCH, bigfam[20].upper())]
+                elif kind == 2:    # remove + add of the last slot by Y (it becomes the last one again, of the same or of another chain), appends by X around it
+                    ops += [X((SET, 20, bigfam[17])), Y((REMOVE, 19)), Y((ADD, 19, away[2])), X((SET, 21, bigfam[18])), Y((REMOVE, 20)), X((ADD, 20, bigfam[18].swapcase())),
+                            Y((SET, 22, bigfam[19])), X((SET, 23, bigfam[20])), (SEARCH, bigfam[20])]
+                else:              # the head and the middle as well: Y takes the first and a middle slot of the chain off between X's appends; then both chains alternately
+                    ops += [X((SET, 20, bigfam[17])), Y((SET, 1, away[3])), X((SET, 21, bigfam[18])), Y((SET, 9, b"")), X((SET, 22, bigfam[19])), X((SET, 30, b"")),
+                            Y((SET, 30, bigfam[20])), X((SET, 31, bigfam[21])), Y((SET, 22, b"")), X((SET, 5, b""))]
+                ops += [agreeing(ops), Y((LOAD,)), X((SET, 40, bigfam[21].lower())), X((SET, 42, b""))]
+                cases.append(narrow(ops, bigfam[:2] + bigfam[16:22] + away[:4]))
+
+    def gen_handover(n):
+        """a random walk of n operations over the two long chains, every operation by a random one of the four processes, biased towards the chains' last slots"""
+        ops = start(bigfam[:nfam] + [b""] * (maxu - nfam), rng.choice(hand_actors)[1]((LOAD,)))
+        order = {HF: list(range(nfam)), HE: list(range(nfam, maxu))}
+        held = {s_: bigfam[s_] for s_ in range(nfam)}
+        r = Ref(maxu); r.hdr = hdr
+        for o in ops:
+            r.apply(o)
+
+        def pick(h):
+            l = order[h]
+            return l[-1] if rng.random() < 0.55 else rng.choice(l)
+
+        def move(slot, i):
+            for l in order.values():
+                if slot in l:
+                    l.remove(slot)
+            h = pyhash(i, bits)
+            if h in order:
+                order[h].append(slot)
+            held[slot] = i
+        while len(ops) < n + 4:
+            A = rng.choice(hand_actors)[1]
+            x = rng.random()
+            unused = [i for i in bigfam if not r.holders(i)]
+            if x < 0.3 and unused and len(order[HE]) > 1:                # a free slot gets a colliding id
+                slot = pick(HE) if rng.random() < 0.7 else rng.choice(order[HE])
+                i = rng.choice(unused); new = [A((SET, slot + 1, recase(i)))]; move(slot, i)
+            elif x < 0.55 and len(order[HF]) > 1:                        # a slot of the family is released
+                slot = pick(HF); new = [A((SET, slot + 1, b""))]; move(slot, b"")
+            elif x < 0.7:                                                 # the last (or some) slot of either chain goes to another bucket
+                free_away = [i for i in away if not r.holders(i)]
+                h = rng.choice([HF, HE])
+                if not free_away or len(order[h]) < 2:
+                    continue
+                slot = pick(h); i = rng.choice(free_away); new = [A((SET, slot + 1, i))]; move(slot, i)
+            elif x < 0.8:                                                 # a slot outside the two chains comes back
+                outside = [s_ for s_ in range(maxu) if s_ not in order[HF] and s_ not in order[HE]]
+                if not outside:
+                    continue
+                slot = rng.choice(outside); i = rng.choice(unused + [b""]) if unused else b""
+                new = [A((SET, slot + 1, i))]; move(slot, i)
+            elif x < 0.9:                                                 # remove + add (two processes): the slot becomes the last one of its chain
+                h = rng.choice([HF, HE])
+                if len(order[h]) < 2:
+                    continue
+                slot = pick(h); i = held.get(slot, b"")
+                new = [A((REMOVE, slot)), rng.choice(hand_actors)[1]((ADD, slot, i))]; move(slot, i)
+            elif x < 0.96:
+                new = [A((SEARCH, rng.choice(bigfam + away).swapcase()))]
+            else:                                                         # reload from the agreeing table, now and then through a link
+                new = [(RELINK, rng.randrange(4)), (WRITE, [cpre(t) for t in r.table[:maxu]]), A((LOAD,))]
+            for o in new:
+                r.apply(o); ops.append(o)
+        return narrow(ops, bigfam[:2] + rng.sample(bigfam[2:], 5) + away[:3])
+    for i in range(120 if thorough else 4):
+        cases.append(gen_handover(rng.randrange(15, 36)))
+    n_hand = len(cases) - n_before_hand
+    for ops in cases[n_before_link:]:
+        r = Ref(maxu); r.hdr = hdr
+        for o in ops:
+            r.apply(o)
+        if r.off_premise:
+            c.broken.append({"kind": "harness", "where": "checks/C04.py link / handover scenarios", "theorem": "the scenarios stay inside the property's premises", "log": str(ops[4:12])})
     # outside the premises (correspondence only): a reload from a file that disagrees, AddToUHash on a slot that is on a chain
     cases.append(start([b"alice", b"Bob2"] + [b""] * (maxu - 2)) + [(WRITE, [b"Bob2", b"alice"] + [b""] * (maxu - 2)), (LOAD,), (SEARCH, b"alice"), (SET, 1, b"guest")])
     cases.append(start([b""] * maxu) + [(SET, 1, b"alice"), (ADD, 0, b"alice"), (ADD, 0, b"Zz"), (REMOVE, 0), (LOAD,)])
@@ -745,6 +902,7 @@ def main():
     for kfree in (PREALLOC - 1, PREALLOC, PREALLOC + 1):
         users = {kfree: dA, kfree + 5: dB, kfree + 99: dL}
         ops = dstart(kfree + 100, users, [0, PREALLOC - 2, PREALLOC - 1, PREALLOC, PREALLOC + 1, PREALLOC + 2, PREALLOC + 3, PREALLOC + 4, kfree + 5, kfree + 6, kfree + 99], dids)
+        ops.insert(2, (RELINK, 1 + kfree % 3))          # the production table behind a symbolic link (one shape per scenario)
         ops += [(DOSEARCH, b""), (SET, PREALLOC + 4, b"late1"), (SEARCH, b"LATE1"), (REMOVE, kfree)]
         ops += [dagreeing(ops, kfree + 100), second((LOAD,), 0), (SEARCH, dB), (REMOVE, kfree), (ADD, kfree, dA.upper()), (ATTACH,)]
         dcases.append(("%d free records ahead of the first user (cap %d)" % (kfree, PREALLOC), ops))
@@ -824,7 +982,7 @@ def main():
     lap("cases generated")
     import threading
     dio = []
-    dthread = threading.Thread(target=lambda: dio.extend(vf.run_impl(impl_d, "C04", dlines, deadline_ms=120000, max_hangs=2)))
+    dthread = threading.Thread(target=lambda: dio.extend(vf.run_impl(impl_d, "C04", dlines, deadline_ms=120000, max_hangs=2, env={"VERIF_C04_PROC2_DEADLINE_MS": "40000"})))
     dthread.start()
 
     lines = [case_line(ops) for ops in cases]
@@ -885,6 +1043,8 @@ def main():
         c.count(len(ops) - 2, "single-slot / chain scenario steps" if ci < n_single else "load-matrix steps (segment state x loading process)" if ci < n_fixed else "generated-history steps")
         c.count((len(ops) - 2) * max(len(o[1]) for o in ops if o[0] == BATTERY), "lookups after a step")
         c.count(sum(1 for o in ops if o[0] == BY2), "operations executed by a second, attached process")
+        c.count(sum(1 for o in ops if o[0] == PEER), "operations executed by a long-lived attached process")
+        c.count(sum(1 for o in ops if o[0] == LOAD or (o[0] in (BY2, PEER) and o[2][0] == LOAD)) if any(o[0] == RELINK and o[1] for o in ops) else 0, "loads in histories with a symbolically linked .PASSWDS")
         if ci not in verdicts:
             continue
         ops, bad = verdicts[ci]
@@ -1001,7 +1161,7 @@ def main():
     c.cov["chain_length_histogram_over_observed_buckets"] = {str(k_): v for k_, v in sorted(lens.items())}
     c.cov["pool"] = {"collision_families": [[i.decode() for i in f[:5]] for f in fams], "colliding_with_the_empty_id": [i.decode() for i in with_empty],
                      "prefix_chains (colliding ids, each a proper prefix of the next)": [[i.decode() for i in t] for t in prefix_chains], "prefix_scenarios": n_prefix, "leftover_scenarios": n_left,
-                     "battery_size": len(battery), "buckets_watched": len(buckets), "ids_tried_for_collisions": tries}
+                     "long_family (ids colliding in one bucket)": [i.decode() for i in bigfam], "link_scenarios": n_link, "handover_scenarios": n_hand, "battery_size": len(battery), "buckets_watched": len(buckets), "ids_tried_for_collisions": tries}
     c.sample({"history": shown[n_fixed][:1500], "result_prefix": " ".join(io[n_fixed].split()[:60])})
     c.sample({"history": shown[0][:1200]})
     c.cov["exhaustive_parts"] = ["every slot 1..%d: set, lookup in swapped case, remove, lookup, add, rename to a case twin" % maxu,
@@ -1035,7 +1195,12 @@ def main():
                           "docker build: files of at most 70 000 records are loaded (a full 2 000 000-record .PASSWDS is 1 GB); the last slots of the table are reached through SetUserID / AddToUHash; the zeroed / reset segment "
                           "(2 000 000-step self-loops) is exercised on the default build only; a record with a non-empty invalid id behind more than PRE_ALLOCATED_USERS free records is outside the premises",
                           "one writer at a time (concurrent registrations are C15): the second process runs its operation while the first one waits, so two LoadUHash calls racing each other are not driven",
-                          "an operation of a second process that has not returned after 2.5 s (12 s on the re-run; LoadUHash over 2^16 buckets and 50 records takes milliseconds) never returns", "SysV shmget/shmat give every attached process the same bytes",
+                          "an operation of a second process that has not returned after 2.5 s (12 s on the re-run; LoadUHash over 2^16 buckets and 50 records takes milliseconds; 40 s on the docker build, whose "
+                          "second process reloads up to 70 000 records while other jobs load the machine; 20 s for a long-lived attached process of op 34) never returns",
+                          "symbolic links: the model resolves the directory entry before loading by definition (C04_load_through_links); that cache.LoadUHash sizes and reads the TABLE is validated on real "
+                          "links (absolute, relative, link to a link) in the scratch tree; hard links, bind mounts and a table replaced during a load are not driven",
+                          "process-private state: the model has none (C04_operation_is_function_of_segment); the long-lived processes take turns, one operation at a time - true concurrency is not driven - "
+                          "on chains of 17 to about 35 slots (the default build has 50 slots); the docker build runs no long-lived peers", "SysV shmget/shmat give every attached process the same bytes",
                           "killUser does not release the slot in the index (C03's finding, row 19 of DESIGN section 6); this check drives cache.* only"])
 
 
